@@ -2,7 +2,7 @@ SPECIFICATION RSpec
 CONSTANTS
   Conns = {"c1", "c2"}
   Mods = {"m1", "m2"}
-  Used = {"debug", "comlog", "error", "off"}
+  Used = {"debug", "comlog", "info", "warning", "error", "off"}
 INVARIANT TypeOK
 INVARIANT DeadSilent
 INVARIANT ExactRouting
